@@ -219,6 +219,125 @@ func TestBoundedC09Structured(t *testing.T) {
 	fmt.Printf("LZVC-BOUNDED name=sort-structured cases=%d bound=Fibonacci, Thue-Morse, period-doubling words, runs, periodic strings, random two-letter runs, k-mer concatenations, all 256 byte values; lengths up to %d\n", cases, maxLen)
 }
 
+// Prefixes of the classical infinite words at (nearly) every length, long-period periodic texts with a defect,
+// and texts whose B* substrings are spelled out as names ('a' followed by k times 'c') in ascending runs and
+// tandem repeats: these drive the depth-limit / heap-sort fall-backs of ssort and trsort and the budget
+// exhaustion path of trsort (added after seeded changes in exactly those fall-backs went unnoticed).
+func TestBoundedC09Fallbacks(t *testing.T) {
+	thorough := os.Getenv("LZVC_TIER") == "thorough"
+	maxLen, step := 1800, 3
+	if thorough {
+		maxLen, step = 6000, 1
+	}
+	cases := 0
+	run := func(p []byte, what string) {
+		c09Check(t, p, what)
+		cases++
+	}
+	fib := []byte("ab")
+	for a := []byte("a"); len(fib) < maxLen; {
+		a, fib = fib, append(append([]byte{}, fib...), a...)
+	}
+	tm := []byte("a")
+	for len(tm) < maxLen {
+		nx := append([]byte{}, tm...)
+		for _, c := range tm {
+			nx = append(nx, 'a'+'b'-c)
+		}
+		tm = nx
+	}
+	pd := []byte("a")
+	for len(pd) < maxLen {
+		var nx []byte
+		for _, c := range pd {
+			if c == 'a' {
+				nx = append(nx, 'a', 'b')
+			} else {
+				nx = append(nx, 'a', 'a')
+			}
+		}
+		pd = nx
+	}
+	for n := 1; n <= maxLen; n += step {
+		run(fib[:n], "fibonacci prefix")
+		run(tm[:n], "thue-morse prefix")
+		run(pd[:n], "period-doubling prefix")
+	}
+	// long-period periodic texts, exact and with one changed byte
+	rng := rand.New(rand.NewSource(19))
+	nper := 150
+	if thorough {
+		nper = 3000
+	}
+	for it := 0; it < nper; it++ {
+		per := make([]byte, 3+rng.Intn(90))
+		for i := range per {
+			per[i] = byte('a' + rng.Intn(2+rng.Intn(3)))
+		}
+		p := bytes.Repeat(per, 2+rng.Intn(12))
+		p = p[:len(p)-rng.Intn(len(per))]
+		run(p, "periodic")
+		q := append([]byte{}, p...)
+		q[rng.Intn(len(q))] ^= 1
+		run(q, "periodic with defect")
+	}
+	// names: symbol k is 'a' followed by k times 'c'
+	spell := func(seq []int) []byte {
+		var p []byte
+		for _, k := range seq {
+			p = append(p, 'a')
+			p = append(p, bytes.Repeat([]byte{'c'}, k)...)
+		}
+		return p
+	}
+	nnames := 4000
+	if thorough {
+		nnames = 40000
+	}
+	for it := 0; it < nnames; it++ {
+		var seq []int
+		term := 35
+		m, copies := 28, 5
+		if it%2 == 1 {
+			m, copies = 24+rng.Intn(8), 4+rng.Intn(3)
+		}
+		for c := copies; c > 0; c-- { // ascending runs with distinct terminators drain the trsort budget
+			for k := 1; k <= m; k++ {
+				seq = append(seq, k)
+			}
+			seq = append(seq, term)
+			term++
+		}
+		x := m + 4
+		for r := 25 + rng.Intn(20); r > 0; r-- { // tandem repeats x x .. x [y] m+1 1 <terminator>
+			for j := 1 + rng.Intn(4); j > 0; j-- {
+				seq = append(seq, x)
+			}
+			if rng.Intn(4) > 0 {
+				seq = append(seq, m+2+rng.Intn(5))
+			}
+			seq = append(seq, m+1, 1, term)
+			term++
+		}
+		// only the order is checked here (the texts have several thousand bytes)
+		p := spell(seq)
+		sa := make([]int32, len(p))
+		Sort(p, sa)
+		seen := make([]bool, len(p))
+		for i, x := range sa {
+			if x < 0 || int(x) >= len(p) || seen[x] {
+				t.Fatalf("spelled names %d: sa[%d]=%d: not a permutation (text of %d bytes, names %v)", it, i, x, len(p), seq)
+			}
+			seen[x] = true
+			if i > 0 && bytes.Compare(p[sa[i-1]:], p[sa[i]:]) >= 0 {
+				t.Fatalf("spelled names %d: suffix sa[%d]=%d is not smaller than suffix sa[%d]=%d (text of %d bytes, names %v)", it, i-1, sa[i-1], i, sa[i], len(p), seq)
+			}
+		}
+		cases++
+	}
+	fmt.Printf("LZVC-BOUNDED name=sort-fallbacks cases=%d bound=prefixes of the Fibonacci, Thue-Morse and period-doubling words at every %d. length up to %d; %d pseudo-random periodic texts (periods 3..92) with and without one defect; %d texts of spelled B* names (4-6 ascending runs 1..m with distinct terminators, then 25-44 tandem repeats; order and permutation checked), seed 19\n", cases, step, maxLen, nper, nnames)
+}
+
 // Token strings: two-byte tokens (lo<hi) arranged in short runs and repeated two or three times drive
 // trsort through its budget, trCopy and trPartialCopy on inputs of some dozen bytes.
 func TestBoundedC09Tokens(t *testing.T) {
